@@ -514,24 +514,31 @@ func check(s Structure) (vs []engine.Violation, outcome string) {
 		return vs, "uses-rejected"
 	}
 	du, di := gen.DumpString(ru.MS, gen.DumpOpts{}), gen.DumpString(ri.MS, gen.DumpOpts{})
-	// module-level "Data()" and grouping bookkeeping are not in the dump; whens: strip run-as-parent
-	if r.stripParent {
-		du, di = normalise(du), normalise(di)
-	}
 	du, di = stripTypeSpace(du), stripTypeSpace(di)
 	if len(r.whenPaths) > 0 {
-		// every introduced node must carry the when with run-as-parent set
+		// every node introduced by the augment must carry the augment's when with run-as-parent set
+		// (asserted on the raw dump; a node that is absent from the in-place variant too, e.g.
+		// because a second modification disables its feature, has nothing to assert)
 		for _, p := range r.whenPaths {
-			found := false
+			found, exists := false, false
+			for _, line := range strings.Split(di, "\n") {
+				if strings.HasSuffix(strings.SplitN(line, " args=", 2)[0], "/"+p) {
+					exists = true
+				}
+			}
 			for _, line := range strings.Split(du, "\n") {
 				if strings.HasSuffix(strings.SplitN(line, " args=", 2)[0], "/"+p) && strings.Contains(line, `parent=true`) {
 					found = true
 				}
 			}
-			if !found {
+			if exists && !found {
 				mk("uses-when-not-run-as-parent:"+cls, "node "+p+" introduced by a uses with a when statement does not carry the when with run-as-parent")
 			}
 		}
+		du, di = normalise(du), normalise(di)
+	}
+	// module-level "Data()" and grouping bookkeeping are not in the dump; whens: strip run-as-parent
+	if r.stripParent {
 		du, di = normalise(du), normalise(di)
 	}
 	if du != di {
